@@ -6,7 +6,7 @@ VARIABLES meth, dim, orient, par, salt, level, choice
 vars == <<meth, dim, orient, par, salt, level, choice>>
 H(i, j, s) == ((i * 7 + j * 13 + s * 31 + i * j * (s + 3) + (i + s) * (j + 2 * s)) % 5) - 2
 Coefs(ax, s) == LET c == [k \in 1..4 |-> H(ax + 1, k, s)] IN IF \A k \in 1..4 : c[k] = 0 THEN <<1, 0, 0, 1>> ELSE c
-ExplicitPar(m) == IF m = "Gauss-Kronrod" THEN 3 ELSE IF m = "Gauss-Legendre_2" THEN 4 ELSE 7
+ExplicitPar(m) == IF m = "Gauss-Kronrod" THEN 3 ELSE IF m = "Gauss-Legendre_2" THEN 5 ELSE 7
 Init == /\ meth \in Methods /\ dim \in 1..3 /\ orient \in 0..7 /\ orient < IPow(2, dim)
         /\ par \in {0, 1} /\ salt \in 0..SALTS /\ level = 0 /\ choice = <<>>
 \* descend the nest: level k picks an abscissa of ITS OWN axis
